@@ -24,15 +24,28 @@ RULE = ("stratified: strata = registered overload x argument class (shape class:
         "non-trivial = torch accepted the tuple, the annotation admits it and >=1 node was recorded; distinct = (overload, class)")
 ASSUMPTIONS = [
     "torch eager (CPU) calling the resolved OpOverload is the oracle; tuples torch rejects are outside the operator's domain",
-    "the domain is further restricted to dtypes the torch_lib function's annotation admits (op_signature type constraints, "
-    "shared type variables bind operands to one dtype); python scalars are given only in the tensor's own dtype category "
-    "(the exporter's type-promotion pass removes the other combinations before torch_lib is called)",
+    "the domain is further restricted to dtypes the torch_lib function's annotation admits (op_signature type constraints; a type "
+    "variable shared by several parameters binds them to one dtype)",
+    "the exporter runs InsertTypePromotion before torch_lib is called: a tuple in which the op's promotion rule "
+    "(torch.onnx._internal.fx.passes.type_promotion) would rewrite an argument (tensor dtype or python scalar whose equivalent dtype "
+    "differs from the promoted one) never reaches the function in that form and is skipped (status promoted_away); the end-to-end "
+    "driver covers those combinations through the real pass",
     "torch.onnx._internal.exporter (_get_overload, OpRecorder, _convert_fx_arg_to_onnx_arg convention, dtype=None -> -1) of the "
     "installed PyTorch is the exporter's convention",
-    "ONNX Runtime 1.30 CPU with optimisations disabled decides; onnx.reference may only dispute",
-    "no undefined-behaviour inputs: no integer division by zero, no float->int casts of nan/inf/out-of-range, indices in range, "
-    "small integers (no overflow); NaN/inf inputs only for the is* predicates",
-    "trace-time exceptions are refusals (counted per overload in evidence), ORT NOT_IMPLEMENTED is inconclusive for the tuple",
+    "ONNX Runtime 1.30 CPU with optimisations disabled decides; onnx.reference may only dispute, and only deviations that can be a "
+    "runtime quirk: not output element types (fixed by ONNX type inference) and not load-time rejections that onnx's own strict "
+    "type/shape inference confirms",
+    "no undefined-behaviour inputs: no integer division by zero, no float->int casts of nan/inf/non-integral/out-of-range values, "
+    "indices in range, distinct scatter indices where duplicates are order-dependent, small integers (no overflow), distinct values "
+    "for sort/topk/arg* (ties only in the dedicated first-occurrence stratum); NaN/inf inputs only for the is* predicates and "
+    "isclose(equal_nan)",
+    "value-less outputs are compared by dtype/shape only (rand*, empty*, dropout in training, unsorted topk); the auxiliary "
+    "save_mean/save_invstd/running-stat outputs of the batch-norm overloads are not compared (eager CPU returns empty tensors in "
+    "inference mode)",
+    "trace-time exceptions are refusals (counted per overload in evidence), ORT NOT_IMPLEMENTED is inconclusive for the tuple; an "
+    "onnx.checker complaint about a graph that ORT executes correctly is counted (checker_rejects), not a violation",
+    "end-to-end: float64 outputs are held to float32 tolerance (an upstream float32 value may have been widened); a deviation at a "
+    "discontinuous op is judged only when its operands are bit-identical on both sides; export failures are refusals",
 ]
 ANCHORS = [
     "onnxscript.function_libs.torch_lib.ops.core:aten_div_mode.func",
